@@ -249,6 +249,13 @@ macro_rules! forms {
             ("from_u64 max", D::from_u64(u64::MAX).unwrap(), (2.0 as F).powi(64)),
             ("from_f32", D::from_f32(0.375).unwrap(), 0.375),
             ("from_f64", D::from_f64(-2.125).unwrap(), -2.125),
+            // values that are not representable in single precision: the conversion must round once,
+            // to the float type of the number
+            ("from_f64 0.1", D::from_f64(0.1).unwrap(), 0.1f64 as F),
+            ("from_f64 pi", D::from_f64(std::f64::consts::PI).unwrap(), std::f64::consts::PI as F),
+            ("from_f64 1e-300", D::from_f64(1e-300).unwrap(), 1e-300f64 as F),
+            ("from_f64 16777217", D::from_f64(16777217.0).unwrap(), 16777217.0f64 as F),
+            ("from_f32 0.1", D::from_f32(0.1).unwrap(), 0.1f32 as F),
         ];
         for (name, got, want) in consts {
             $st.evaluations += 1;
